@@ -26,7 +26,8 @@ def replay(kind, vals, perm, n_jobs, step=0.25):
         ok = out == list(vals)
     elif kind == "generator_unordered":
         out = list(P.parallel([mk(j) for j in range(n)], n_jobs=workers, return_as="generator_unordered"))
-        ok = sorted(out) == sorted(vals)
+        key = lambda x: (x is None, x or 0)
+        ok = sorted(out, key=key) == sorted(vals, key=key)
     else:
         out = P.parallel([mk(j) for j in range(n)], n_jobs=workers)
         ok = out == list(vals)
